@@ -161,6 +161,8 @@
 pub mod builder;
 pub mod scmp_handler;
 pub mod socket;
+#[cfg(feature = "verif-hooks")]
+pub mod verif_socket;
 
 use std::{borrow::Cow, fmt, net, sync::Arc, time::Duration};
 
